@@ -118,7 +118,9 @@ pub fn neutralize_raw<'l>(arg: &mut Argument<'l>) -> Result<bool, SimplifyError>
 				ArgumentType::Subtract => (None, Some(0)),
 				ArgumentType::Multiply => (Some(1), Some(1)),
 				// these lack lhs neutralization because division by zero would still fail
-				ArgumentType::Divide | ArgumentType::Modulo => (None, Some(1)),
+				ArgumentType::Divide => (None, Some(1)),
+				// modulo has no neutral element (`x % 1` is zero, not `x`)
+				ArgumentType::Modulo => (None, None),
 				ArgumentType::BitAnd => (Some(-1), Some(-1)),
 				ArgumentType::BitOr => (Some(0), Some(0)),
 				ArgumentType::BitXor => (Some(0), Some(0)),
